@@ -178,7 +178,7 @@ def check(ctx):
                 I2, s2 = ctx.interp(assume=protocols.assume_default), State()
                 ref = ctx.call_func(I2, s2, "ref.quickshift_ref.ascent_labels", integer("N"), V("func", T("step"), func=("builtin", step, "step")))
                 stepv = V("func", T("step"), func=("builtin", step, "step"))
-                ctx.compare("R-ASCENT", f"labels_: every point of a path receives the root of the point the path ran into [{cfg}]", N, lab, ref, site, cfg, alternatives=_alts(ctx, ("ascent_labels_carried", "ascent_labels_pointer_jumping"), integer("N"), stepv, assume=protocols.assume_default))
+                ctx.compare("R-ASCENT", f"labels_: every point of a path receives the root of the point the path ran into [{cfg}]", N, lab, ref, site, cfg, alternatives=_alts(ctx, ("ascent_labels_carried", "ascent_labels_pointer_jumping", "ascent_labels_until_labelled"), integer("N"), stepv, assume=protocols.assume_default))
             # labels / centres
             I2, s2 = ctx.interp(), State()
             ref = ctx.call_func(I2, s2, "ref.quickshift_ref.centres", X, lab)
